@@ -4,6 +4,7 @@ import (
 	"bytes"
 	"io"
 )
+
 // C13 K4: Conn.Read with every caller buffer size: bytes in order, nothing lost
 func H_c13_conn_read() {
 	F := symParam("F", 2)
@@ -16,7 +17,7 @@ func H_c13_conn_read() {
 		ch <- frame{Data: d}
 	}
 	close(ch)
-	c := &Conn{dataFrames: ch}
+	c := &Conn{dataFrames: ch, demux: newDemux()} // a live (idle) demultiplexer, as newConn provides
 	bufsz := symInt(1, 4)
 	var got []byte
 	for calls := 0; ; calls++ {
